@@ -131,7 +131,7 @@ func (w *Writer) encode(data any) (out []byte, err error) {
 	if w.Width*3/8 < tree.depth {
 		w.Indent = 1
 	}
-	w.fill(tree, 0, false)
+	w.fill(tree, 0, false, 0)
 	if w.w != nil && 0 < len(w.buf) {
 		_, err = w.w.Write(w.buf)
 		w.buf = w.buf[:0]
@@ -141,7 +141,7 @@ func (w *Writer) encode(data any) (out []byte, err error) {
 	return
 }
 
-func (w *Writer) fill(n *node, depth int, flat bool) {
+func (w *Writer) fill(n *node, depth int, flat bool, col int) {
 	start := depth * w.Indent
 	switch n.kind {
 	case strNode, numNode:
@@ -163,7 +163,7 @@ func (w *Writer) fill(n *node, depth int, flat bool) {
 			}
 			w.buf = append(w.buf, '[')
 		}
-		if !flat && start+n.size < w.Width && n.depth < w.MaxDepth {
+		if !flat && col+n.size < w.Width && n.depth < w.MaxDepth {
 			flat = true
 		}
 		d2 := depth + 1
@@ -190,7 +190,7 @@ func (w *Writer) fill(n *node, depth int, flat bool) {
 				} else if !flat {
 					w.buf = append(w.buf, cs...)
 				}
-				w.fill(m, d2, flat)
+				w.fill(m, d2, flat, d2*w.Indent)
 			}
 		}
 		w.buf = append(w.buf, is...)
@@ -222,7 +222,7 @@ func (w *Writer) fill(n *node, depth int, flat bool) {
 		var cs []byte
 		var is []byte
 
-		if !flat && start+n.size < w.Width && n.depth < w.MaxDepth {
+		if !flat && col+n.size < w.Width && n.depth < w.MaxDepth {
 			flat = true
 		}
 		if flat {
@@ -261,10 +261,15 @@ func (w *Writer) fill(n *node, depth int, flat bool) {
 			} else {
 				w.buf = append(w.buf, ": "...)
 			}
+			kw := len(m.key)
 			for i := keyWidth - len(m.key); 0 < i; i-- {
 				w.buf = append(w.buf, ' ')
+				kw++
 			}
-			w.fill(m, d2, flat)
+			if w.Color {
+				kw -= len(w.KeyColor) + len(w.NoColor)
+			}
+			w.fill(m, d2, flat, d2*w.Indent+kw+2)
 		}
 		w.buf = append(w.buf, is...)
 		if w.Color {
